@@ -40,14 +40,16 @@ theorem cast_negative_is_far_future (x : Int) (hx : x < 0) (hlo : -(2 ^ 63 : Int
 /-- Such a guarded update is rejected with the drift error in its very first step, and the revision it
 consumed is reported to the sequencer (slot filled): it cannot wedge the node. The drift path is taken by
 every expectation at or above the revision the request is dealt (`dealt + 1 ≤ exp`; backend.go `deal`:
-`rev <= prevRevision`), the boundary case included. -/
+`rev <= prevRevision`), the boundary case included. `hopen`: the request is dealt a revision at all - since /repo
+624b477 `Deal` refuses while the sequencer's ring is full, and then NO revision is consumed
+(`C04.window_full_is_refused_not_panicked`): 100000 such requests behind one slow write no longer kill the node. -/
 theorem far_future_update_rejected_and_resolved (g : G) (id : Nat) (k v : Bytes) (exp : Nat)
-    (hfree : g.client id = none) (hexp : g.dealt + 1 ≤ exp) :
+    (hfree : g.client id = none) (hopen : g.windowFull = false) (hexp : g.dealt + 1 ≤ exp) :
     let g' := run g [.begin id (.update k v exp), .step id .none]
     g'.client id = none ∧ (∃ d ∈ g'.done, d.id = id ∧ d.res = .error .drift ∧ d.rev = g.dealt + 1) ∧
     (∃ w ∈ g'.slots, w.rev = g.dealt + 1 ∧ w.valid = false) := by
   intro g'
-  have hg' := run_update_drift g id k v exp hfree hexp
+  have hg' := run_update_drift g id k v exp hfree hopen hexp
   refine ⟨?_, ?_, ?_⟩
   · show G.client (run _ _) id = none
     rw [hg']; exact hfree
@@ -61,13 +63,13 @@ theorem far_future_update_rejected_and_resolved (g : G) (id : Nat) (k v : Bytes)
 
 /-- Same for a guarded delete of an existing key. -/
 theorem far_future_delete_rejected_and_resolved (g : G) (id : Nat) (k : Bytes) (exp : Nat)
-    (hfree : g.client id = none) (hexp : g.dealt + 1 ≤ exp) (v : Bytes) (m : Nat)
+    (hfree : g.client id = none) (hopen : g.windowFull = false) (hexp : g.dealt + 1 ≤ exp) (v : Bytes) (m : Nat)
     (hfound : bget g.cfg g.store k 0 = .found v m) :
     let g' := run g [.begin id (.delete k exp), .step id .none, .step id .none]
     g'.client id = none ∧ (∃ d ∈ g'.done, d.id = id ∧ d.res = .error .drift ∧ d.rev = g.dealt + 1) ∧
     (∃ w ∈ g'.slots, w.rev = g.dealt + 1 ∧ w.valid = false) := by
   intro g'
-  have hg' := run_delete_drift g id k exp hfree hexp v m hfound
+  have hg' := run_delete_drift g id k exp hfree hopen hexp v m hfound
   refine ⟨?_, ?_, ?_⟩
   · show G.client (run _ _) id = none
     rw [hg']; exact hfree
@@ -120,9 +122,10 @@ theorem probe_after_anything_false :
 /-- Corrected statement: the same, for a store that holds only records of keys over the documented alphabet
 (`hal`; true of every state reached by requests whose keys are over the alphabet, see
 `probe_after_alphabet_requests`). The first two conjuncts (the create succeeds, the read revision catches up)
-do not need `hal`. -/
+do not need `hal`. `hopen`: the sequencer is not a whole ring of unconsumed slots behind (`Deal` would refuse the
+probe: /repo 624b477); it holds e.g. whenever the read revision has caught up. -/
 theorem probe_after_anything {g0 g : G} (h0 : C02.Init g0) (hs : C02.StoreOK g0) (hr : Reachable g0 g)
-    (hq : g.clients = []) (hp : g.retryPc = none) (hb : g.dealt + 1 < 2 ^ 64)
+    (hq : g.clients = []) (hp : g.retryPc = none) (hb : g.dealt + 1 < 2 ^ 64) (hopen : g.windowFull = false)
     (_hcm : g.cfg.q.casMissingNotFound = false)
     (hal : ∀ kv ∈ g.store, ∃ k' r, kv.1 = encode k' r ∧ Alphabet k')
     (id : Nat) (k v : Bytes) (hk : Alphabet k) (hv : v ≠ tombstone)
@@ -131,7 +134,7 @@ theorem probe_after_anything {g0 g : G} (h0 : C02.Init g0) (hs : C02.StoreOK g0)
                       List.replicate (g.dealt + 1 - g.committed) Action.seq)
     (∃ d ∈ g1.done, d.id = id ∧ d.res = .ok (g.dealt + 1)) ∧ g1.committed = g.dealt + 1 ∧
     bget g1.cfg g1.store k 0 = .found v (g.dealt + 1) :=
-  probe_serves h0 hs hr hq hp hb hal id k v hk hv hfresh
+  probe_serves h0 hs hr hq hp hb hopen hal id k v hk hv hfresh
 
 /-- Why `hp` ("the retry loop is not in the middle of a repair"): with no request in flight but the retry
 loop between its read and its commit, the probe's create is acknowledged, yet the read revision cannot pass the
@@ -155,6 +158,7 @@ catches up and the point read returns it. -/
 theorem probe_after_alphabet_requests {g0 : G} (h0 : C02.Init g0) (hs : C02.StoreOK g0) (sched : List Action)
     (hsa : ∀ a ∈ sched, ∀ id kind, a = .begin id kind → Alphabet kind.key)
     (hq : (run g0 sched).clients = []) (hp : (run g0 sched).retryPc = none) (hb : (run g0 sched).dealt + 1 < 2 ^ 64)
+    (hopen : (run g0 sched).windowFull = false)
     (id : Nat) (k v : Bytes) (hk : Alphabet k) (hv : v ≠ tombstone)
     (hfresh : (run g0 sched).store.get (idxKey k) = none) :
     let g := run g0 sched
@@ -162,7 +166,7 @@ theorem probe_after_alphabet_requests {g0 : G} (h0 : C02.Init g0) (hs : C02.Stor
                       List.replicate (g.dealt + 1 - g.committed) Action.seq)
     (∃ d ∈ g1.done, d.id = id ∧ d.res = .ok (g.dealt + 1)) ∧ g1.committed = g.dealt + 1 ∧
     bget g1.cfg g1.store k 0 = .found v (g.dealt + 1) :=
-  probe_serves h0 hs ⟨sched, rfl⟩ hq hp hb ((AlphaInv.init h0 hs).run sched hsa).st id k v hk hv hfresh
+  probe_serves h0 hs ⟨sched, rfl⟩ hq hp hb hopen ((AlphaInv.init h0 hs).run sched hsa).st id k v hk hv hfresh
 
 /-- `Decode` decodes what the store holds: every internal key written by the backend is an `encode k r`, which
 is at least 13 bytes long and decodes. (Before /repo 5ace897 this was what kept `Decode`'s index-out-of-range
